@@ -9,6 +9,7 @@
 import MRB.Conc.Inv
 
 set_option linter.unusedVariables false
+set_option linter.unusedSimpArgs false
 
 namespace MRB.Conc
 open MRB
